@@ -18,6 +18,10 @@ BATCH_KINDS = ("array", "fortran", "frame", "lists", "intarray", "strided", "reu
 NARROW = {"uint8array": (np.uint8, 0, 255), "uint16array": (np.uint16, 0, 65535), "int32array": (np.int32, -2 ** 31, 2 ** 31 - 1)}
 
 
+NARROW_SCALARS = {"uint8scalar": "uint8array", "int16scalar": "int16array", "int32scalar": "int32array"}
+NARROW["int16array"] = (np.int16, -2 ** 15, 2 ** 15 - 1)
+
+
 def _narrow(kind, values):
     """the narrow integer dtype of `kind` when every value is whole and representable (sensor bytes, 16-bit counts), float64 otherwise"""
     dt, lo, hi = NARROW[kind]
@@ -71,6 +75,9 @@ class Feeder:
             return np.array([x], dtype=np.int64 if all(_whole(v) for v in x) else float)
         if kind in NARROW:
             return np.array([x], dtype=_narrow(kind, x))
+        if kind in NARROW_SCALARS:       # a numpy scalar of the narrow type (one element read out of a sensor array)
+            dt = _narrow(NARROW_SCALARS[kind], x)
+            return dt(x[0]) if d == 1 else np.array([x], dtype=dt)
         if kind == "frame":
             return pd.DataFrame([[float(v) for v in x]], columns=self._names(d))
         if kind == "series":
